@@ -59,12 +59,14 @@ def NS(tier):
 
 
 def BOUNDS(tier):
-    return {"N": NS(tier), "wavelengths": WVLS, "input_spacings": D1S, "magnifications": MAGS,
+    return {"N": NS(tier), "N_big(span of 26 unit fields + dense field)": BIG_NS[tier], "wavelengths": WVLS, "input_spacings": D1S, "magnifications": MAGS,
             "distances": ZS, "focal_lengths": FOCALS, "z_scalar_types": ZTYPES,
             "propagators": ["angular_spectrum", "one_step", "two_step", "lens"]}
 
 
 def cases(tier):
+    for c in big_cases(tier):
+        yield c
     for N in NS(tier):
         for wvl, d1, zt in itertools.product(WVLS, D1S, ZTYPES):
             base = "N=%d:lam=%g:d1=%g" % (N, wvl, d1)
@@ -94,6 +96,80 @@ def cases(tier):
             for f in fs:
                 yield Case("lens:%s:f=%g:ztype=float" % (base, f),
                            {"prop": "lens", "N": N, "wvl": wvl, "d1": d1, "z": f, "zt": "float"})
+
+
+BIG_NS = {"quick": [64, 130], "thorough": [64, 130, 257]}
+
+
+def big_cases(tier):
+    """grids far above the operator-extraction bound: the propagator restricted to the span of 26 unit fields
+    (corners, edges, centre, asymmetric interior points; real and imaginary unit)"""
+    for N in BIG_NS[tier]:
+        for wvl, d1 in ((0.5e-6, 0.01), (1.5e-6, 0.05)):
+            base = "N=%d:lam=%g:d1=%g" % (N, wvl, d1)
+            for z in (2500.0, -2500.0):
+                for m in (1.0, 1.3, 0.5):
+                    for prop in ("angular_spectrum", "two_step"):
+                        yield Case("big:%s:%s:m=%g:z=%g" % (prop, base, m, z),
+                                   {"big": True, "prop": prop, "N": N, "wvl": wvl, "d1": d1, "m": m, "z": z, "zt": "float"})
+                yield Case("big:one_step:%s:z=%g" % (base, z),
+                           {"big": True, "prop": "one_step", "N": N, "wvl": wvl, "d1": d1, "z": z, "zt": "float"})
+            for f in (2.5, -2.5):
+                yield Case("big:lens:%s:f=%g" % (base, f),
+                           {"big": True, "prop": "lens", "N": N, "wvl": wvl, "d1": d1, "z": f, "zt": "float"})
+
+
+def _big(p):
+    o = Out()
+    N, d1 = p["N"], p["d1"]
+    fn, d_out = propagator(p)
+    c = N // 2
+    pts = [(0, 0), (0, N - 1), (N - 1, 0), (N - 1, N - 1), (c, c), (c - 1, c), (c, c + 1), (0, c), (c, 0),
+           (N - 1, c - 3), (5, N - 7), (N // 3, 2 * N // 3 + 1), (2 * N // 3, N // 5)]
+    cols, ins = [], []
+    with warnings.catch_warnings():
+        warnings.simplefilter("ignore")
+        for (i, j) in pts:
+            for unit in (1.0, 1j):
+                e = numpy.zeros((N, N), dtype=complex)
+                e[i, j] = unit
+                cols.append(numpy.asarray(fn(e.copy())).reshape(-1))
+                ins.append(e)
+    o.stat("lib_calls", len(cols))
+    T = numpy.array(cols).T
+    finite = bool(numpy.all(numpy.isfinite(T)))
+    o.check("finite_output", finite)
+    if not finite or T.shape[0] != N * N:
+        o.check("output_shape", T.shape[0] == N * N, detail=T.shape)
+        return o
+    scale = _maxabs(T)
+    o.check("operator_nonzero", scale > 0)
+    if not scale > 0:
+        return o
+    o.close("complex_linear", _maxabs(T[:, 1::2] - 1j * T[:, 0::2]) / scale, TOL)
+    # power conserved for every field in the span of these unit fields: Gram matrix = that of the inputs
+    Gin = numpy.array([[numpy.vdot(a, b) for b in ins] for a in ins])
+    G = T.conj().T @ T * (d_out / d1) ** 2
+    o.close("power_conserved", _maxabs(G - Gin), TOL)
+    coef = numpy.array([(1 + (3 * k) % 5) * (1 - 2 * (k % 3 == 0)) for k in range(len(ins))], dtype=float)
+    x = sum(ck * e for ck, e in zip(coef, ins))
+    y = numpy.asarray(fn(x.copy())).reshape(-1)
+    o.close("superposition", _maxabs(y - T @ coef) / (numpy.sum(numpy.abs(coef)) * scale), TOL)
+    # a dense field (every pixel lit): the plain sums of the statement
+    idx = numpy.arange(N * N)
+    xd = (((idx * 7) % 5 - 2.0) + 1j * ((idx * 3) % 7 - 3.0)).reshape(N, N)
+    yd = numpy.asarray(fn(xd.copy()))
+    o.stat("lib_calls", 2)
+    pin = float(numpy.sum(numpy.abs(xd) ** 2) * d1 ** 2)
+    pout = float(numpy.sum(numpy.abs(yd) ** 2) * d_out ** 2)
+    o.close("power_conserved_dense_field", abs(pout / pin - 1.0), TOL)
+    xr = xd.real
+    for dt in (numpy.float64, numpy.int64):
+        yr = numpy.asarray(fn(xr.astype(dt)))
+        yc = numpy.asarray(fn(xr.astype(complex)))
+        o.close("real_dtype_input_is_same_field", _maxabs(yr - yc) / max(_maxabs(yc), 1e-300), TOL, sub=numpy.dtype(dt).name)
+        o.stat("lib_calls", 2)
+    return o
 
 
 # (wavelength, input spacing, distances, focal lengths)
@@ -127,6 +203,8 @@ def propagator(p):
 
 
 def evaluate(p):
+    if p.get("big"):
+        return _big(p)
     o = Out()
     N, d1 = p["N"], p["d1"]
     shape = (N, N)
